@@ -72,6 +72,8 @@ def parse_macros(toks, file, nested_in=None):
     while i < n:
         if toks[i][1] == "macro_rules" and i + 3 < n and toks[i + 1][1] == "!" and toks[i + 2][0] == "ident":
             name = toks[i + 2][1]
+            exported = any(toks[k][1] == "macro_export" for k in range(max(0, i - 40), i)
+                           if not any(toks[m][1] in (";", "}") for m in range(k, i)))
             j = i + 3
             if toks[j][1] in OPEN:
                 end = group_end(toks, j)
@@ -93,6 +95,7 @@ def parse_macros(toks, file, nested_in=None):
                                 continue
                     k += 1
                 d = MacroDef(name, file, toks[i][2], arms, nested_in)
+                d.exported = exported
                 defs.append(d)
                 for _, tr, _ in arms:
                     defs.extend(parse_macros(tr, file, nested_in=name))
@@ -165,3 +168,140 @@ def invoked_macros(d):
             if tr[i][0] == "ident" and tr[i + 1][1] == "!":
                 out.add(tr[i][1])
     return out
+
+
+ITEM_KW = {"fn", "const", "static", "type", "struct", "enum", "trait", "mod", "union"}
+_MANGLED = re.compile(r"^__|[A-Z0-9]{8,}|[a-z0-9]{8,}$")
+
+
+def _looks_reserved(name):
+    """the repository's own convention for names a transcriber puts where user tokens can see them: a `__` prefix and/or a random
+    alphanumeric tail (`__func_zxe7hgbnjs`, `Ret_KO9Y329U2U`, `__ARGS_81608BFNA5`)"""
+    if name.startswith("__"):
+        return True
+    m = re.search(r"([A-Z0-9]{8,}|[a-z0-9]{8,})$", name)
+    return bool(m and re.search(r"[0-9]", m.group(1)) and re.search(r"[A-Za-z]", m.group(1)))
+
+
+def capturable_names(d):
+    """[(line, kind, name)]: item-level names (items and generic parameters - the names macro_rules hygiene does NOT protect) that a
+    transcriber of d declares with an ordinary-looking name in a scope into which a macro argument (`$x`) is expanded.  A caller
+    whose tokens mention an item of their own with that name would silently get the macro's."""
+    out = []
+    for matcher, tr, _ in d.arms:
+        # enclosing-group table
+        parent = {}
+        stack = []
+        for i, t in enumerate(tr):
+            if t[0] == "punct" and t[1] in OPEN:
+                stack.append(i)
+            elif t[0] == "punct" and t[1] in (")", "]", "}"):
+                if stack:
+                    stack.pop()
+            parent[i] = stack[-1] if stack else None
+
+        def scope_of(i):
+            g = parent.get(i)
+            if g is None:
+                return 0, len(tr) - 1
+            return g, group_end(tr, g)
+
+        kinds = {}
+        for k in range(len(matcher) - 3):
+            if matcher[k][1] == "$" and matcher[k + 1][0] == "ident" and matcher[k + 2][1] == ":" and matcher[k + 3][0] == "ident":
+                kinds[matcher[k + 1][1]] = matcher[k + 3][1]
+
+        def has_arg(lo, hi):
+            # arguments that can carry value-level tokens (a `ty`/`ident`/`literal`/`lifetime`/`vis` argument cannot smuggle in an
+            # expression that names one of the caller's items)
+            return any(tr[k][1] == "$" and k + 1 <= hi and tr[k + 1][0] == "ident" and tr[k + 1][1] != "crate"
+                       and kinds.get(tr[k + 1][1], "tt") in ("expr", "tt", "block", "stmt", "pat", "pat_param", "item", "meta")
+                       for k in range(lo, hi))
+        i = 0
+        while i < len(tr) - 1:
+            t = tr[i]
+            if t[0] == "ident" and t[1] in ITEM_KW and tr[i + 1][0] == "ident" and (i == 0 or tr[i - 1][1] not in ("$", "*")):
+                name = tr[i + 1][1]
+                if t[1] == "const" and name in ("fn", "unsafe", "extern"):
+                    i += 1
+                    continue
+                lo, hi = scope_of(i)
+                if has_arg(lo, hi) and not _looks_reserved(name) and not (t[1] == "fn" and parent.get(i) is not None and _in_impl(tr, parent, i)):
+                    out.append((t[2], t[1], name))
+                if t[1] == "fn" and i + 2 < len(tr) and tr[i + 2][1] == "<":
+                    # generic parameters: visible in the signature and the body
+                    j = i + 3
+                    depth = 1
+                    expect = True
+                    params = []
+                    while j < len(tr) and depth > 0:
+                        x = tr[j]
+                        if x[1] == "<":
+                            depth += 1
+                        elif x[1] == ">" and tr[j - 1][1] != "-":
+                            depth -= 1
+                        elif depth == 1 and x[0] == "ident" and expect and x[1] != "const" and tr[j - 1][1] != "$":
+                            params.append((x[2], x[1]))
+                            expect = False
+                        elif depth == 1 and x[1] == ",":
+                            expect = True
+                        j += 1
+                    # end of the fn: the next `{` group at this nesting level
+                    k = j
+                    while k < len(tr) and not (tr[k][1] == "{" and parent.get(k) == parent.get(i)):
+                        k += 1
+                    end = group_end(tr, k) if k < len(tr) else len(tr) - 1
+                    if has_arg(i, end):
+                        for ln, nm in params:
+                            if not _looks_reserved(nm):
+                                out.append((ln, "generic parameter", nm))
+            i += 1
+    return out
+
+
+def _in_impl(tr, parent, i):
+    """the fn at token i is an associated function (inside `impl ... { }` or `trait ... { }`): reached through a path, not by name"""
+    g = parent.get(i)
+    if g is None:
+        return False
+    k = g - 1
+    while k >= 0 and tr[k][1] not in (";", "}", "{"):
+        if tr[k][0] == "ident" and tr[k][1] in ("impl", "trait"):
+            return True
+        k -= 1
+    return False
+
+
+def family(defs, roots):
+    """the macros reachable from `roots` through invocations in transcribers"""
+    by_name = {}
+    for d in defs:
+        by_name.setdefault(d.name, []).append(d)
+    seen = set()
+    todo = list(roots)
+    while todo:
+        n = todo.pop()
+        if n in seen or n not in by_name:
+            continue
+        seen.add(n)
+        for d in by_name[n]:
+            todo.extend(invoked_macros(d))
+    return [d for n in sorted(seen) for d in by_name[n]]
+
+
+def hygiene_rule(ctx, roots, repo):
+    """HYGIENE: in the macro family behind a property's public macros, no transcriber declares an ordinary-looking item or
+    generic-parameter name in a scope into which a value-carrying macro argument is expanded (see capturable_names)."""
+    defs = scan_repo(repo, crates=("konst", "konst_kernel"))
+    fam = family(defs, roots)
+    missing = [r for r in roots if r not in {d.name for d in fam}]
+    for r in missing:
+        ctx.violation("HYGIENE", "missing|" + r, "macro %s! not found (renamed?): the name-capture lint has nothing to look at" % r)
+    for d in fam:
+        for line, kind, name in capturable_names(d):
+            ctx.violation("HYGIENE", "%s|%s" % (d.name, name),
+                          "%s! declares the %s `%s` where the caller's tokens are expanded: macro_rules hygiene does not cover item-level "
+                          "names, so a caller whose closure or expression mentions an item of its own called `%s` silently gets the macro's "
+                          "(the repository's convention for such names is a `__` prefix / random tail)" % (d.name, kind, name, name),
+                          "%s:%d" % (d.file, line))
+        ctx.instance("HYGIENE", d.name, nontrivial=False, sample={"macro": d.name, "file": d.file})
